@@ -360,7 +360,14 @@ impl World {
             if self.gz_tables { gz(&b) } else { b }
         };
         v.push((self.table_path("speeds"), tab(&self.speeds)));
-        v.push((self.table_path("grades"), tab(&self.grades)));
+        // `grades` are decimal; the file holds them in the configured unit of the grade table
+        let grade_factor = match &self.traversal {
+            Traversal::Energy { grade_unit, .. } if grade_unit == "percent" => 100.0,
+            Traversal::Energy { grade_unit, .. } if grade_unit == "millis" => 1000.0,
+            _ => 1.0,
+        };
+        let grades_in_unit: Vec<f64> = self.grades.iter().map(|g| q9(g * grade_factor)).collect();
+        v.push((self.table_path("grades"), tab(&grades_in_unit)));
         let g = self.shape(self.geoms_txt());
         v.push((self.table_path("geoms"), if self.gz_tables { gz(&g) } else { g }));
         if self.headings.is_some() {
